@@ -146,6 +146,39 @@ pub fn c14_object(a: &dyn Aml, raw: Option<&[u8]>, reference: &[u8], what: K, cx
             cx.fail(P14, "repeatable", format!("{} serialised twice into the vector sink gives different streams (len {} vs {})", what.name(), b1.len(), b2.len()));
         }
     }
+    // the crate's own stateful sinks must end in the same state however the stream was chunked:
+    // compare with the same sink fed the reference stream one byte at a time
+    if reference.len() <= SDT_SINK_MAX {
+        if let Ok((direct, bytewise)) = catch(|| {
+            let mut s1 = sdt::Sdt::new(*b"SINK", 36, 1, *b"VERIF_", *b"SINKSINK", 1);
+            a.to_aml_bytes(&mut s1);
+            let mut s2 = sdt::Sdt::new(*b"SINK", 36, 1, *b"VERIF_", *b"SINKSINK", 1);
+            for b in reference {
+                AmlSink::byte(&mut s2, *b);
+            }
+            (s1.as_slice().to_vec(), s2.as_slice().to_vec())
+        }) {
+            if direct != bytewise {
+                let at = direct.iter().zip(bytewise.iter()).position(|(x, y)| x != y).unwrap_or(direct.len().min(bytewise.len()));
+                cx.fail(P14, "sink_state_independent_of_chunking", format!("{}: the generic table used as sink ends up different (first at offset {}) from the same table fed the same {} bytes one at a time", what.name(), at, reference.len()));
+            }
+        }
+    }
+    if reference.len() <= (1 << 20) {
+        if let Ok((direct, bytewise)) = catch(|| {
+            let mut p1 = aml::PackageBuilder::new();
+            a.to_aml_bytes(&mut p1);
+            let mut p2 = aml::PackageBuilder::new();
+            for b in reference {
+                AmlSink::byte(&mut p2, *b);
+            }
+            (to_vec(&p1), to_vec(&p2))
+        }) {
+            if direct != bytewise {
+                cx.fail(P14, "sink_state_independent_of_chunking", format!("{}: the package builder used as sink serialises differently from one fed the same {} bytes one at a time", what.name(), reference.len()));
+            }
+        }
+    }
     // checksum sink and the byte-sum helper
     let want = sum8(reference);
     if let Ok(raw_sum) = catch(|| {
@@ -228,6 +261,19 @@ fn c11_struct(op: &Op, bytes: &[u8], rebuild: &dyn Fn(&Op) -> Option<Vec<u8>>, c
         subset ^= mix(*k as u64, *d);
     }
     cx.cover("c11.option_subsets", mix(op.k as u64, subset));
+    cx.cover(c11_subset_key(op.k), subset);
+    if op.k == K::Fadt {
+        // the stated measure for FADT's flags: every single flag and every pair of flags co-invoked
+        let mut fl: Vec<u64> = op.s.iter().filter(|o| o.k == K::FaFlag).map(|o| o.arg(0) % 25).collect();
+        fl.sort();
+        fl.dedup();
+        for (i, a) in fl.iter().enumerate() {
+            cx.cover("c11.fadt_flags_invoked", *a);
+            for b in &fl[i + 1..] {
+                cx.cover("c11.fadt_flag_pairs_coinvoked", a * 25 + b);
+            }
+        }
+    }
     if op.s.windows(2).any(|w| optspec::opt_id(op.k, &w[0]) > optspec::opt_id(op.k, &w[1])) {
         cx.probe("c11.non_canonical_order");
     }
@@ -261,6 +307,25 @@ fn c11_struct(op: &Op, bytes: &[u8], rebuild: &dyn Fn(&Op) -> Option<Vec<u8>>, c
         if optspec::must_differ(op, rep) && other == bytes {
             cx.fail(P11, "option_distinguishable", format!("{}: invoking option {} leaves the emitted bytes unchanged [{}]", op.k.name(), rep.k.name(), op.brief()));
         }
+    }
+}
+
+/// per-structure coverage set: distinct option subsets (by option identity) exercised
+fn c11_subset_key(k: K) -> &'static str {
+    match k {
+        K::MaGicc => "c11.subsets.madt_gicc",
+        K::MaGicMsi => "c11.subsets.madt_gic_msi_frame",
+        K::SrMemAff => "c11.subsets.srat_memory_affinity",
+        K::SrGenInit => "c11.subsets.srat_generic_initiator",
+        K::SrRintcAff => "c11.subsets.srat_rintc_affinity",
+        K::PpProc => "c11.subsets.pptt_processor",
+        K::PpCache => "c11.subsets.pptt_cache",
+        K::CeCfmws => "c11.subsets.cedt_cfmws",
+        K::HmSysLoc | K::SysLocSubj => "c11.subsets.hmat_sllbi",
+        K::TcpaServer => "c11.subsets.tcpa_server",
+        K::Fadt => "c11.subsets.fadt",
+        K::HeAerRoot | K::HeAerDev | K::HeAerBridge | K::HeGhes | K::HeGhesV2 => "c11.subsets.hest",
+        _ => "c11.subsets.other",
     }
 }
 
@@ -1783,6 +1848,10 @@ fn observe(subj: &mut Box<dyn Subject>, cx: &mut Cx, obs_seed: u64, last_img: &m
     // ---- C01 ----
     if subj.checksummed() && cx.on(P01) && sum8(&img) != 0 {
         cx.fail(P01, "sum_zero", format!("{}: delivered image of {} bytes sums to {} after step {}", cx.subject.name(), img.len(), sum8(&img), cx.step));
+    }
+    // ---- C12's checksum clause ("the table checksum stays valid throughout") ----
+    if subj.checksummed() && cx.on(P12) && matches!(cx.subject, K::Slit | K::Hmat) && sum8(&img) != 0 {
+        cx.fail(P12, "checksum_valid_throughout", format!("{}: delivered image of {} bytes sums to {} after step {}", cx.subject.name(), img.len(), sum8(&img), cx.step));
     }
     // ---- C02 ----
     if cx.on(P02) {
